@@ -43,9 +43,10 @@ def build():
     u.verify(D, "get_duration", "duration", props=["C19"], fns={"get_duration": FnSpec(ret="r", rewrites=[
         ("T-NOM", r"fold_many1\(\s*get_duration_part,", "crate::nom::fold_many1(get_duration_part,"),
         ("T-CLOSURE", r"\|\| Some\(Duration::new\(0, 0\)\)", "|| -> (z__: Option<Duration>) ensures z__ matches Some(d) && dur(d) == 0 { Some(Duration::new(0, 0)) }"),
-        ("T-CLOSURE", r"\|acc: Option<Duration>, item: Option<Duration>\| match",
-         "|acc: Option<Duration>, item: Option<Duration>| -> (s__: Option<Duration>) ensures fold_step_ok(acc, item, s__) /*//@C19.period_is_sum_of_parts*/ { match"),
-        ("T-NOM", r"_ => None,\s*\},\s*\)\(input\)", "_ => None, } }, input)"),
+        # the fold step, whatever its body: annotated with the step relation it must satisfy; `)(input)` becomes a third argument
+        ("T-CLOSURE", r"(?s)\|acc: Option<Duration>, item: Option<Duration>\|\s*(?P<body>.*?),?\s*\)\(input\)",
+         lambda m: "|acc: Option<Duration>, item: Option<Duration>| -> (s__: Option<Duration>) ensures fold_step_ok(acc, item, s__) /*//@C19.period_is_sum_of_parts*/ { "
+                   + m.group("body") + " }, input)"),
     ])})
     u.verify(D, "parse_duration", "duration", props=["C19"], fns={"parse_duration": FnSpec(ret="r")})
     return u
